@@ -959,7 +959,8 @@ type TernNode struct {
 }
 
 func (n *TernNode) String() string {
-	return operand(n.Arg1, precTernary+1) + "?" + n.Arg2.String() + ":" + n.Arg3.String()
+	// The spaces matter: "?[", "?." and "?:" are tokens of their own.
+	return operand(n.Arg1, precTernary+1) + " ? " + n.Arg2.String() + " : " + n.Arg3.String()
 }
 
 func (n *TernNode) Children() []Node {
